@@ -236,45 +236,50 @@ func checkC12(p *Prog, r *Report) {
 		if !closeInW {
 			rClose.Bad(fnName(w)+":closes", w.Pos(), "the event consumer never closes the listener: -one-shell has no effect")
 		}
-		/* The loop returns only from the cancellation arm or the closed-channel edge. */
-		var sel *ssa.Select
-		for _, s := range selectsIn(w) {
-			sel = s
+		/* Once an event has been recognised (an edge on which its type equals
+		an EventType constant) the consumer goes back to waiting: no return
+		is reachable from there without passing a select again. */
+		sels := selectsIn(w)
+		evT := types.Type(nil)
+		if pk := p.Pkg(iobPkg); nil != pk {
+			if o := pk.Types.Scope().Lookup("EventType"); nil != o {
+				evT = o.Type()
+			}
 		}
-		if nil == sel {
+		if 0 == len(sels) {
 			rClose.Unproven(fnName(w)+":loop", w.Pos(), "no select found in the event consumer")
+		} else if nil == evT {
+			rClose.Unproven(fnName(w)+":loop", w.Pos(), "iobroker.EventType not found")
 		} else {
-			allowed := map[*ssa.BasicBlock]bool{}
-			if didx, _ := hasDoneArm(sel); didx >= 0 {
-				if ifi, k := selectArmEdge(sel, didx); nil != ifi {
-					allowed[ifi.Block().Succs[k]] = true
-				}
-			}
-			if okV := selectExtracts(sel)[1]; nil != okV {
-				for _, ref := range *okV.Referrers() {
-					if ifi, ok := ref.(*ssa.If); ok {
-						allowed[ifi.Block().Succs[1]] = true
-					}
-				}
-			}
-			bad := 0
+			ncase, bad := 0, 0
+			isSel := func(i ssa.Instruction) bool { _, ok := i.(*ssa.Select); return ok }
 			eachInstr(w, func(i ssa.Instruction) {
-				if !isReturn(i) {
+				ifi, ok := i.(*ssa.If)
+				if !ok {
 					return
 				}
-				ok := false
-				for b := range allowed {
-					if b == i.Block() || b.Dominates(i.Block()) {
-						ok = true
-					}
+				c := decodeCond(ifi.Cond)
+				if nil == c.Y || !types.Identical(c.Y.Type(), evT) {
+					return
 				}
-				if !ok {
+				if _, isC := constString(c.Y); !isC {
+					return
+				}
+				ncase++
+				succ := 1
+				if c.Eq {
+					succ = 0
+				}
+				if ret := (reachQ{From: Loc{ifi.Block().Succs[succ], -1}, Target: isReturn, Block: isSel}).run(); nil != ret {
 					bad++
-					rClose.Bad(fnName(w)+":keeps-watching", posOf(i), "the event consumer can return from an event case: after that no connected event is handled and the listener never closes")
+					rClose.Bad(fnName(w)+":keeps-watching", posOf(ret), "the event consumer can return from an event case: after that no connected event is handled and the listener never closes")
 				}
 			})
-			if 0 == bad {
-				rClose.OK(fnName(w)+":keeps-watching", posOf(sel), "returns only on cancellation or a closed event channel")
+			switch {
+			case 0 == ncase:
+				rClose.Unproven(fnName(w)+":keeps-watching", w.Pos(), "no test of an event's type found in the consumer")
+			case 0 == bad:
+				rClose.OK(fnName(w)+":keeps-watching", posOf(sels[0]), "after each of %d event cases the consumer waits again; it returns only from the wait itself (cancellation or closed channel)", ncase)
 			}
 		}
 	} else {
@@ -354,8 +359,16 @@ func checkC12(p *Prog, r *Report) {
 	var isCall *ssa.Call
 	eachInstr(rm, func(i ssa.Instruction) {
 		c, ok := i.(*ssa.Call)
-		if ok && "errors.Is" == calleeName(c.Common()) && globalLoadName(c.Common().Args[1]) == "ErrOneShellClosed" {
-			isCall = c
+		if ok && "errors.Is" == calleeName(c.Common()) {
+			if globalLoadName(c.Common().Args[1]) == "ErrOneShellClosed" {
+				isCall = c
+			}
+			/* Or one of a fixed table of errors which lists it. */
+			for _, n := range tableElemNames(p, c.Common().Args[1]) {
+				if "ErrOneShellClosed" == n {
+					isCall = c
+				}
+			}
 		}
 	})
 	if nil == isCall {
@@ -537,6 +550,77 @@ func cancelUses(with *ssa.Call) []ssa.Instruction {
 				}
 			}
 		})
+	}
+	return out
+}
+
+// tableElemNames: v is an element, at a non-constant index, of a package
+// variable of the module holding a slice literal of loads of package
+// variables (var cleanErrors = []error{io.EOF, hsrv.ErrOneShellClosed}),
+// which nothing else writes; returns the names of the listed variables.
+func tableElemNames(p *Prog, v ssa.Value) []string {
+	u, ok := stripConv(resolveCell(v), false).(*ssa.UnOp)
+	if !ok || token.MUL != u.Op {
+		return nil
+	}
+	ia, ok := u.X.(*ssa.IndexAddr)
+	if !ok {
+		return nil
+	}
+	tl, ok := ia.X.(*ssa.UnOp)
+	if !ok || token.MUL != tl.Op {
+		return nil
+	}
+	g, ok := tl.X.(*ssa.Global)
+	if !ok || nil == g.Pkg || !strings.HasPrefix(g.Pkg.Pkg.Path(), ModPath) {
+		return nil
+	}
+	/* Exactly one store to the variable, in init, of a slice literal. */
+	var lit *ssa.Alloc
+	n := 0
+	scan := func(fn *ssa.Function) {
+		eachInstr(fn, func(i ssa.Instruction) {
+			switch x := i.(type) {
+			case *ssa.Store:
+				if x.Addr == ssa.Value(g) {
+					n++
+					if sl, ok := x.Val.(*ssa.Slice); ok && nil == sl.Low && nil == sl.High {
+						lit, _ = sl.X.(*ssa.Alloc)
+					}
+				}
+				/* Writes through the variable's elements. */
+				if ia2, ok := x.Addr.(*ssa.IndexAddr); ok {
+					if l2, ok := ia2.X.(*ssa.UnOp); ok && token.MUL == l2.Op && l2.X == ssa.Value(g) {
+						n += 2
+					}
+				}
+			}
+		})
+	}
+	if ini := g.Pkg.Func("init"); nil != ini {
+		scan(ini)
+	}
+	for _, fn := range p.Funcs() {
+		scan(fn)
+	}
+	if 1 != n || nil == lit {
+		return nil
+	}
+	var out []string
+	for _, ref := range *lit.Referrers() {
+		ea, ok := ref.(*ssa.IndexAddr)
+		if !ok {
+			continue
+		}
+		for _, r2 := range *ea.Referrers() {
+			if st, ok := r2.(*ssa.Store); ok && st.Addr == ssa.Value(ea) {
+				if nm := globalLoadName(st.Val); "" != nm {
+					out = append(out, nm)
+				} else {
+					return nil
+				}
+			}
+		}
 	}
 	return out
 }
